@@ -151,7 +151,10 @@ def judge(traces, chunked, inflate=(), shards=16, heap="768m", timeout=3000, inv
         path = os.path.join(common.scratch(), f"str-{os.getpid()}-{id(traces) % 100000}-{i}.json")
         with open(path, "w", encoding="utf-8") as f:
             json.dump({"traces": b, "inflate": list(inflate)}, f)
-        jobs.append(dict(module="SockTrace", cfg=CFG % (("TRUE", "") if chunked else ("FALSE", "INVARIANT PrefixOK\nINVARIANT SizeOK" if invariants else "")), env={"VERIF_TRACES": path}, heap=heap, timeout=timeout))
+        # (heap by the size of the shard: TLC's Json module needs some 40 bytes per byte of JSON)
+        mb = os.path.getsize(path) / 1e6
+        heap_i = heap if mb < 6 else f"{min(3072, int(mb * 45) + 768)}m"
+        jobs.append(dict(module="SockTrace", cfg=CFG % (("TRUE", "") if chunked else ("FALSE", "INVARIANT PrefixOK\nINVARIANT SizeOK" if invariants else "")), env={"VERIF_TRACES": path}, heap=heap_i, timeout=timeout))
     results = tlc.run_many(jobs)
     verdicts = {}
     for res in results:
@@ -161,7 +164,9 @@ def judge(traces, chunked, inflate=(), shards=16, heap="768m", timeout=3000, inv
                 verdicts[t[1]] = (t[2], t[3], t[4], t[5])
             raise MachineryFailure(f"SockTrace: invariant {res.invariant} violated\n" + "\n".join(res.out.splitlines()[-60:]))
         if not res.ok():
-            raise MachineryFailure("SockTrace TLC failure: " + str(res.error) + "\n" + "\n".join(res.out.splitlines()[-40:]))
+            lines = res.out.splitlines()
+            first = next((i for i, ln in enumerate(lines) if "Error" in ln or "Exception" in ln), 0)
+            raise MachineryFailure("SockTrace TLC failure: " + str(res.error) + "\n" + "\n".join(lines[first:first + 25]) + "\n...\n" + "\n".join(lines[-40:]))
         for t in res.tuples("SVERDICT"):
             verdicts[t[1]] = (t[2], t[3], t[4], t[5])
     missing = [t["tid"] for t in traces if t["tid"] not in verdicts]
